@@ -102,3 +102,71 @@ func Harness_C19_JSONPatchIntoOwnSource() {
 	}
 	verifrt.Reach("applied")
 }
+
+// Harness_C19_JSONPatchIntoOwnSourceEscaped: the same for object members whose names need RFC 6901 escapes: the
+// document has members "a~", "a/" and "ab"; from and path name a member by "a" followed by 1..2 bytes out of
+// {~, 0, 1, b} ("a~0" and the malformed "a~" are the same member for the patch library).
+func Harness_C19_JSONPatchIntoOwnSourceEscaped() {
+	doc := c11Doc()
+	doc["o"] = map[string]interface{}{"a~": map[string]interface{}{"k": "v"}, "a/": map[string]interface{}{"k": "w"}, "ab": map[string]interface{}{"k": "x"}}
+	tok := func(tag string) string {
+		s := verifrt.AnyStr(tag, 1+verifrt.Choose(tag+"-len", 2))
+		for i := 0; i < len(s); i++ {
+			verifrt.Assume(s[i] == '~' || s[i] == '0' || s[i] == '1' || s[i] == 'b')
+		}
+		return "a" + s
+	}
+	t0, t1 := tok("from-member"), tok("path-member")
+	kind := []string{"copy", "move"}[verifrt.Choose("kind", 2)]
+	op := map[string]interface{}{"op": kind, "from": "/o/" + t0, "path": "/o/" + t1 + "/y"}
+	p := patch.Patch{patch.ActionKey: patch.JSONPatch, patch.PatchesKey: []interface{}{op}}
+	if patchvalidator.Validate(p) != nil {
+		verifrt.Reach("refused-by-validation")
+		return
+	}
+	_, err := New().ApplyPatches(doc, []patch.Patch{p})
+	if err != nil {
+		verifrt.Reach("error")
+		return
+	}
+	verifrt.Reach("applied")
+}
+
+// Harness_C19_JSONPatchTwoSteps: two move/copy operations over three object members and the root member names
+// "x", "o": the second operation's source may be a value the first one has just placed elsewhere (the patch library
+// does not copy values, so both locations then hold the same node).
+func Harness_C19_JSONPatchTwoSteps() {
+	doc := c11Doc()
+	doc["o"] = map[string]interface{}{"a": map[string]interface{}{"k": "v"}, "b": map[string]interface{}{"k": "w"}}
+	locs := []string{"/o/a", "/o/b", "/o/c", "/x", "/o/a/y", "/o/c/y", "/x/y", "/o"}
+	mk := func(tag string) map[string]interface{} {
+		return map[string]interface{}{"op": []string{"copy", "move"}[verifrt.Choose(tag+"-kind", 2)],
+			"from": locs[verifrt.Choose(tag+"-from", len(locs))], "path": locs[verifrt.Choose(tag+"-path", len(locs))]}
+	}
+	p := patch.Patch{patch.ActionKey: patch.JSONPatch, patch.PatchesKey: []interface{}{mk("op0"), mk("op1")}}
+	if patchvalidator.Validate(p) != nil {
+		verifrt.Reach("refused-by-validation")
+		return
+	}
+	_, err := New().ApplyPatches(doc, []patch.Patch{p})
+	if err != nil {
+		verifrt.Reach("error")
+		return
+	}
+	verifrt.Reach("applied")
+}
+
+// Harness_C19_JSONPatchNegativeIndex: replace / test / move / copy / remove / add on array positions written with a
+// sign ("-1", "-2", "-3", "+0", "+5") or out of range: answered with a value or an error.
+func Harness_C19_JSONPatchNegativeIndex() {
+	idx := []string{"-1", "-2", "-3", "+0", "+5", "2", "7"}[verifrt.Choose("index", 7)]
+	kind := []string{"replace", "test", "move", "copy", "remove", "add"}[verifrt.Choose("kind", 6)]
+	op := map[string]interface{}{"op": kind, "path": "/a/" + idx, "from": "/a/" + idx, "value": "v"}
+	switch verifrt.Choose("pointer-side", 3) {
+	case 0:
+		op["from"] = "/name"
+	case 1:
+		op["path"] = "/fresh"
+	}
+	c19Apply([]interface{}{op})
+}
